@@ -249,20 +249,24 @@ CHECKS = {
         technique="Coq/mathcomp proof over an arbitrary ordered field on matrix terms translated from the source on every run + exact-rational vm_compute evaluation + numeric law sweep",
         design="5/C17"),
     "C04": dict(
-        text=("Theorems (closed under the global context) about the model of Collocator.collocate (common time window, sort, "
-              "row-major flattening of grids, NaN index arrays, build-side choice, index cache, temporal pre-binning with offsets "
-              "and dataset swap, temporal check, compaction): pairs_exact - the reported id pairs are exactly the pairs within "
-              "distance, within max_interval (whole seconds) and inside [start, end], None iff there is none, for EVERY tuning (bin "
-              "width and origin, magnitude_factor, path threshold - hence both code paths) and every Collocator state; "
-              "invariant_under_tuning; history_independent (after any list of earlier calls the result equals that of a fresh "
-              "Collocator); transpose; trunc_check_equiv; search_exact_any_cache; array_equal_test_sound, with the as-found allclose "
-              "cache test refuted (asis_cache_refuted). The spatial tree is a Section hypothesis (near = chord <= max_distance; "
-              "GeoIndex.query is C06). NOT proved, checked on every generated case: each pair once, interval / distance values. "
-              "Tie: generated histories of 1-5 calls on one Collocator (flat / grid, labelled / unlabelled, NaNs, poles, date line, "
-              ">1e6-candidate binned cases), id-pair sets compared with the specification evaluated in Coq on an exact-integer "
-              "long-double chord oracle with a guard band."),
-        note=COMMON_NOTE + " xarray where/dropna/sortby/sel/stack and pandas Grouper/searchsorted are modelled by filter, stable sort, flattening and fixed-width bins (the theorem holds for every bin origin); threshold parsing trusted; max_interval=None, max_distance=None and sub-second max_interval are outside the claim.",
-        technique="Coq refinement proof (executable model = brute-force specification, induction over lists/bins, lia) + differential correspondence on generated call histories evaluated by vm_compute",
+        text=("18 theorems (closed under the global context) about the model of Collocator.collocate (common time window, sort, "
+              "row-major flattening of grids, NaN index arrays, build-side choice, index cache, temporal pre-binning with offsets and "
+              "dataset swap, temporal check, compaction), in the row form and in the form of the code's three separate arrays "
+              "(arrays_agree: both forms return the same state and result): pairs_exact - the reported id pairs are exactly the pairs "
+              "within distance, within max_interval (whole seconds) and inside [start, end], None iff there is none, for EVERY tuning "
+              "(bin width and origin, magnitude_factor, path threshold - hence both code paths) and every Collocator state; "
+              "invariant_under_tuning; history_independent; transpose; each pair is reported once on both paths (no pair from two "
+              "bins); values_are_of_the_pair - the k-th stored interval is |t_p - t_s| in whole seconds and the k-th stored distance "
+              "is the index's distance of exactly the two input points the k-th column of Collocations/pairs names; "
+              "compaction_consistent - the output is a valid compact dataset (C13's compact_ok) that expands to exactly the rows of "
+              "original_pairs and stores each point once; the as-found allclose cache test is refuted. The spatial tree is a Section "
+              "hypothesis (near = chord <= max_distance; GeoIndex.query is C06). Tie: generated histories of 1-5 calls on one "
+              "Collocator (flat / grid, labelled / unlabelled, NaNs, poles, date line, >1e6-candidate cases measured to take the "
+              "binned path); every returned dataset passes through the certified checker check_output inside Coq (checker_sound), "
+              "interval and distance of every row are compared with the model's row for the same id pair, id-pair sets with the "
+              "specification on an exact-integer long-double chord oracle with a guard band."),
+        note=COMMON_NOTE + " xarray where/dropna/sortby/sel/stack and pandas Grouper/searchsorted are modelled by filter, stable sort, flattening and fixed-width bins (the theorem holds for every bin origin); threshold parsing trusted; the order of stored points is not compared; max_interval=None, max_distance=None and sub-second max_interval are outside the claim.",
+        technique="Coq refinement proof (executable model = brute-force specification, induction over lists/bins, lia; certified output checker) + differential correspondence on generated call histories evaluated by vm_compute",
         design="5/C04"),
     "C14": dict(
         text=("20 theorems over the reals about a hand model on lists built on kernels and the ISA table TRANSLATED from the source on "
